@@ -441,7 +441,12 @@ func scenFLT(s *sched.Sim, cfg Config, res *Result) {
 						mode = "single"
 					}
 					tag := fmt.Sprintf("f%d", caseNo)
-					target = &fltTarget{tagPrefix: tag + "#0", ordinal: site, kind: k, pos: pos}
+					// in a batch the faulted operation is the first or the second element
+					at := 0
+					if mode != "single" && s.DrawBool(1, 2) {
+						at = 1
+					}
+					target = &fltTarget{tagPrefix: fmt.Sprintf("%s#%d", tag, at), ordinal: site, kind: k, pos: pos}
 					wireFrom := len(env.net.Log)
 					var got *gwResult
 					var sibling *gwResult
@@ -458,10 +463,15 @@ func scenFLT(s *sched.Sim, cfg Config, res *Result) {
 							s.Policy.NoSearch = nil
 							res.Probe("flt.batch-case-under-drawn-schedule")
 						}
-						raw = env.post(tag, []clientReq{reqOf(op), reqOf(clean)}, true)
+						if at == 0 {
+							raw = env.post(tag, []clientReq{reqOf(op), reqOf(clean)}, true)
+						} else {
+							raw = env.post(tag, []clientReq{reqOf(clean), reqOf(op)}, true)
+							res.Probe("flt.faulted-operation-second-in-batch")
+						}
 						s.Policy = sched.Policy{Deviation: 0}
 						if len(raw.Batch) == 2 {
-							got, sibling = raw.Batch[0], raw.Batch[1]
+							got, sibling = raw.Batch[at], raw.Batch[1-at]
 						}
 					}
 					t := target
@@ -491,7 +501,7 @@ func scenFLT(s *sched.Sim, cfg Config, res *Result) {
 						// no value that no service returned
 						have := map[string]bool{}
 						for _, m := range env.net.Log[wireFrom:] {
-							if !strings.HasPrefix(m.Tag, tag+"#0") || m.Resp == nil {
+							if !strings.HasPrefix(m.Tag, fmt.Sprintf("%s#%d", tag, at)) || m.Resp == nil {
 								continue
 							}
 							var v interface{}
